@@ -341,6 +341,21 @@ fn exec_op(cx: &mut Ctx, t: &[&str]) -> String {
             let msg: CosmosMsg = DistributionMsg::SetWithdrawAddress { address: to }.into();
             res(cx.app.execute(Addr::unchecked(sender), msg))
         }
+        ["rb", kind, a, rest @ ..] => {
+            // the staking / distribution message of `a`, followed in ONE execute_multi by a bank transfer that cannot
+            // succeed: the transaction fails as a whole and nothing of the first message may remain (storage or otherwise)
+            let sender = cx.addr(a);
+            let first: Option<CosmosMsg> = match (*kind, rest) {
+                ("setwd", [b]) => Some(DistributionMsg::SetWithdrawAddress { address: cx.addr(b) }.into()),
+                ("withdraw", [v]) => Some(DistributionMsg::WithdrawDelegatorReward { validator: cx.val(v) }.into()),
+                ("deleg", [v, n]) => num(n).map(|n| StakingMsg::Delegate { validator: cx.val(v), amount: coin(n, cx.denom.clone()) }.into()),
+                ("undeleg", [v, n]) => num(n).map(|n| StakingMsg::Undelegate { validator: cx.val(v), amount: coin(n, cx.denom.clone()) }.into()),
+                _ => None,
+            };
+            let Some(first) = first else { return "bad-op".into() };
+            let impossible: CosmosMsg = cosmwasm_std::BankMsg::Send { to_address: sender.clone(), amount: vec![coin(1_000_000_000_000_000_000_000_000_000u128, cx.denom.clone())] }.into();
+            res(cx.app.execute_multi(Addr::unchecked(sender), vec![first, impossible]))
+        }
         ["slash", v, p] => {
             let Some(p) = num(p) else { return "bad-op".into() };
             let va = cx.val(v);
@@ -625,7 +640,23 @@ impl<'a> Gen<'a> {
             let d = self.rng.below(3) as usize;
             let to = self.rng.pick(&["w1", "w1", "d1", "d2", "d3"]);
             self.op(format!("setwd {} {}", D[d], to));
-        } else if k < 78 {
+        } else if k < 68 {
+            // a staking / distribution message inside a transaction that fails afterwards: no effect of any kind
+            let (d, v) = match self.held() {
+                Some(x) if self.rng.chance(2, 3) => x,
+                _ => self.dv(),
+            };
+            let op = match self.rng.below(6) {
+                0 | 1 | 2 => format!("rb setwd {} {}", D[d], self.rng.pick(&["w1", "d1", "d2", "d3"])),
+                3 => format!("rb withdraw {} v{}", D[d], v + 1),
+                4 => format!("rb deleg {} v{} {}", D[d], v + 1, self.rng.range(1, 5)),
+                _ => format!("rb undeleg {} v{} 1", D[d], v + 1),
+            };
+            self.op(op);
+            if self.rng.chance(1, 2) {
+                self.op(format!("withdraw {} v{}", D[d], v + 1));
+            }
+        } else if k < 80 {
             let v = self.rng.below(self.nvals as u64) as usize;
             let p = self.pct();
             self.op(format!("slash v{} {}", v + 1, p));
@@ -685,7 +716,7 @@ pub fn gen_staking(rng: &mut Rng, thorough: bool) -> Vec<String> {
     const E: u128 = 1_000_000_000_000_000_000;
     let fixed_d3 = rng.below(150) == 0;
     let unb = if fixed_d3 { 60 } else { rng.pick(&[60u64, 60, 100, 1000, 86400, YEAR / 3]) };
-    let apr: u128 = if fixed_d3 { E / 10 } else { rng.pick(&[E / 10, 7 * E / 100, 13 * E / 100, E, E + 1, E, E / 2]) };
+    let apr: u128 = if fixed_d3 { E / 10 } else { rng.pick(&[E / 10, 7 * E / 100, 13 * E / 100, E, E + 1, E, E / 2, E / 10, 0]) };
     let comms: [u128; 7] = [0, 3 * E / 100, E / 10, 333_333_333_333_333_333, 1, E / 10, E];
     let nvals = if thorough || rng.chance(1, 2) { 3 } else { 2 };
     let malformed_case = rng.chance(15, 100);
